@@ -75,7 +75,9 @@ def check_output(obl, out, ref, fields, limit, what, canary=False):
     for key, d in (('x', 0), ('y', 1)):
         got = out.get(key)
         exp = covering.centres(ref, lim, d)
-        if got is None or len(got) != len(exp) or any(abs(float(a) - e) > 1e-12 * max(1, abs(e)) for a, e in zip(got, exp)):
+        # (a header that spells its geometry with n digits fixes the coordinates to about n digits only)
+        tol = 1e-12 if not getattr(ref, 'header_digits', None) else 10.0 ** (2 - ref.header_digits)
+        if got is None or len(got) != len(exp) or any(abs(float(a) - e) > tol * max(1, abs(e)) for a, e in zip(got, exp)):
             obl.fail('%s: %s coordinates %s, expected %s' % (what, key, got, exp))
         else:
             obl.total += 1
@@ -88,7 +90,7 @@ def check_output(obl, out, ref, fields, limit, what, canary=False):
 def run_case(case):
     res = CaseResult()
     mods = common.mods()
-    ref = families.make_ref('p', case['mesh'], case['fields'], layout=case['layout'], geom=case['geom'])
+    ref = families.make_ref('p', case['mesh'], case['fields'], layout=case['layout'], geom=case['geom'], header_digits=case.get('header_digits'))
     Mandoline = mods['amr_kitchen.mandoline.mandoline'].Mandoline
     viol = {}
     runs = []
@@ -249,7 +251,8 @@ def make_replay(ref, v):
     _, lev = covering.covering(cref, lim, 0)
     case = {'property': 'C08', 'handler': 'c08', 'signature': v['signature'], 'what': v['what'], 'args': v['args'], 'again': bool(v.get('again')), 'cli': v.get('cli'), 'np_limit': bool(v.get('np_limit')),
             'expected': exp, 'grid_level': lev.T.tolist() if (fields == ['all'] or 'grid_level' in fields) else None,
-            'x': [float(x) for x in covering.centres(ref, lim, 0)], 'y': [float(x) for x in covering.centres(ref, lim, 1)]}
+            'x': [float(x) for x in covering.centres(ref, lim, 0)], 'y': [float(x) for x in covering.centres(ref, lim, 1)],
+            'coord_rtol': 1e-12 if not getattr(ref, 'header_digits', None) else 10.0 ** (2 - ref.header_digits)}
     with open(os.path.join(d, 'case.json'), 'w') as f:
         json.dump(case, f, indent=1)
     common.write_replay_stub(d)
@@ -270,6 +273,12 @@ def cases():
     for counts, fine, fields in [((33, 32), None, fsets[1]), ((20, 15), 290, fsets[0])] + ([] if tier == 'quick' else [((65, 32), None, fsets[0]), ((40, 30), 1100, fsets[1])]):
         gm = families.grid_mesh(counts, fine=fine)
         out.append({'label': gm.name, 'mesh': gm, 'fields': fields, 'layout': [families.dealt_layout(nb_, 3, stride=2 + li) for li, nb_ in enumerate(gm.nboxes())], 'geom': 1, 'wide': True})
+    # headers that spell the geometry with six or fifteen significant digits (thirds: the spelled cell sizes of consecutive levels
+    # are not exactly a factor two apart)
+    for j, m in enumerate([x for x in meshes if len(x.boxes) > 1][:2 if tier == 'quick' else 6]):
+        for digits in (6, 15):
+            out.append({'label': '%s/%d-digit-geometry' % (m.name, digits), 'mesh': m, 'fields': fsets[1 + j % 2], 'layout': families.scatter_layouts(m, rnd, max_files=2),
+                        'geom': 4, 'header_digits': digits})
     n = 0
     while n < (10 if tier == 'quick' else 250):
         m = families.random_mesh(rnd, 2, max_levels=3, max_boxes=4)
